@@ -288,7 +288,11 @@ EDGE_STRING_VALUES = [[''], ['"'], ['"q"'], ['a"'], ['a,b', 'c'], ['a\nb', 'c'],
                       ['é', 'ü,ö'], ['a b', 'c  d'], ["'", "''"], ['a,b,c'], ['[a,b]']]
 
 RETYPABLE = ['yes', 'null', '1e3', '2020-01-01', '~', 'true', '1_000', '0x10', ' padded ', 'no', 'off', '1.0',
-             '12:30:01', '0o17', '.inf', '=', '<<', '- a', 'a: b', '#c', '{a}', '!!str', '%', '@', '`', '*x', '&x']
+             '12:30:01', '0o17', '.inf', '=', '<<', '- a', 'a: b', '#c', '{a}', '!!str', '%', '@', '`', '*x', '&x',
+             # characters YAML treats as line breaks / JSON must escape (kept after the first 12 entries, which are
+             # also used as names)
+             'a\x85b', 'a\x85\x85b', 'trailing\x85', 'a\u2028b', 'a\u2029b', 'tab\there', 'a\rb', 'a\r\nb',
+             'multi\nline\n', '\ufeffbom', 'quote"in', "it's", 'back\\slash', 'a\x7fb', 'nul-free \x1f'.replace('\x1f', '')]
 
 
 def doc_dtypes():
@@ -369,6 +373,10 @@ def doc_retypable():
         odml.Property(name='zeros', dtype='int', values=[0], parent=sec3)
         odml.Property(name='false', dtype='boolean', values=[False], parent=sec3)
         odml.Property(name='zf', dtype='float', values=[0.0], parent=sec3)
+        # dtypes given as DType members (the API accepts both spellings)
+        for member in (odml.DType.int, odml.DType.string, odml.DType.boolean, odml.DType.date):
+            odml.Property(name='enum_%s' % member.name, dtype=member, values=None, parent=sec3)
+        odml.Property(name='enum_float', dtype=odml.DType.float, values=[1.5, 2.5], parent=sec3)
     return doc
 
 
